@@ -6,6 +6,7 @@ from common import *
 from mccheck import *
 LEVEL = 'proof'
 
+RCMD = {'LTL': 'restrictltl', 'CTLS': 'restrict'}
 RESTR = {'true', 'false', 'ap', 'not', 'or', 'X', 'U', 'E'}
 
 
@@ -69,8 +70,9 @@ def run(R):
         r = call(lambda: tree_of(o.get_equivalent_restricted_formula()))
         ln = call(lambda: tree_of(LNot(o)))
         meta.append((logic, f, r, ln, str(o) == s0))
-        cmds.append(['restrictctl', fsx(f)] if logic == 'CTL' else ['restrict', fsx(f)])
-        cmds.append(['lnot', fsx(f)])
+        cmds.append(['restrictctl', fsx(f)] if logic == 'CTL' else [RCMD[logic], fsx(f)])
+        # LNot of an LTL state formula A g would be Not(A g), which is not LTL: TypeError (model: mk)
+        cmds.append(['mk', 'LTL', 'not', ['LTL', fsx(f)]] if (logic == 'LTL' and f[0] == 'A') else ['lnot', fsx(f)])
     outs = model_batch_parallel(cmds)
     for i, (logic, f, r, ln, unchanged) in enumerate(meta):
         R.evaluations += 1
@@ -79,13 +81,18 @@ def run(R):
             m_r = ('ok', fparse(o_r[1])) if o_r[0] == 'some' else ('err', 'TypeError')
         else:
             m_r = ('ok', fparse(o_r))
-        m_ln = ('ok', fparse(o_ln))
+        if logic == 'LTL' and f[0] == 'A':
+            m_ln = ('ok', fparse(o_ln[1][1])) if o_ln[0] == 'ok' else ('err', o_ln[1])
+        else:
+            m_ln = ('ok', fparse(o_ln))
         bad = []
         if tuple(r) != m_r:
             bad.append('restricted')
         if tuple(ln) != m_ln:
             bad.append('LNot')
-        if r[0] == 'ok' and not alphabet_ok(r[1], logic == 'CTL'):
+        # an LTL formula is A rho: the documented restricted LTL syntax restricts the path formula rho
+        rr = r[1][1] if (r[0] == 'ok' and logic == 'LTL' and f[0] == 'A' and r[1][0] == 'A') else (r[1] if r[0] == 'ok' else None)
+        if r[0] == 'ok' and not alphabet_ok(rr, logic == 'CTL'):
             bad.append('alphabet')
         if ln[0] == 'ok' and starts_two_nots(ln[1]):
             bad.append('double-negation')
@@ -113,7 +120,7 @@ def replay(R, data):
     L = lang_module(d['logic'])
     o = to_py(f, L)
     r = call(lambda: tree_of(o.get_equivalent_restricted_formula()))
-    m = model_batch([['restrictctl', fsx(f)] if d['logic'] == 'CTL' else ['restrict', fsx(f)]])[0]
+    m = model_batch([['restrictctl', fsx(f)] if d['logic'] == 'CTL' else [RCMD[d['logic']], fsx(f)]])[0]
     print('impl :', r)
     print('model:', m)
     mr = (('ok', fparse(m[1])) if m[0] == 'some' else ('err', 'TypeError')) if d['logic'] == 'CTL' else ('ok', fparse(m))
